@@ -7,6 +7,7 @@ import Casket.Props.C09
 import Casket.Props.C12
 import Casket.Props.C13
 import Casket.Props.C14
+import Casket.Props.C15
 import Casket.Props.C17
 import Casket.Props.C18
 import Casket.Props.C19
